@@ -10,7 +10,10 @@ from decimal import Decimal
 
 from lib import gen2, monitors, reflex, refparser, refeval
 
+import re
+
 ID = 'C07'
+FN_REPR = re.compile(r"<function .*? at 0x[0-9a-f]+>|<[\w.]*Lambda object at 0x[0-9a-f]+>|<built-in (?:function|method) \w+(?: of [^<>]*)?>|<method '\w+' of '\w+' objects>|<class '[\w.]+'>")
 RULE = ('programs of 1-8 statements from the type-directed generator G2 (lib/gen2.py): every operator on the type combinations the typing admits, all statement forms, '
         'slices with negative/fractional bounds and steps, lambdas (dynamic scoping, extra/missing arguments, parameters shadowing host names and builtins) driven by '
         'map/filter/reduce/sorted and called in the three spellings, every deterministic builtin, host-supplied initial names (ints alongside decimals); ~15 % of programs violate '
@@ -71,7 +74,12 @@ def same(ctx, a, b):
     if isinstance(a, float) or isinstance(b, float):
         return isinstance(a, float) and isinstance(b, float) and (a == b or (a != a and b != b))
     if isinstance(a, str) or isinstance(b, str):
-        return isinstance(a, str) and isinstance(b, str) and a == b
+        if not (isinstance(a, str) and isinstance(b, str)):
+            return False
+        if a != b and '<' in a and '<' in b:
+            # the printed form of a callable (address, implementation name) is not part of the semantics
+            return FN_REPR.sub('<fn>', a) == FN_REPR.sub('<fn>', b)
+        return a == b
     if isinstance(a, (list, tuple)) or isinstance(b, (list, tuple)):
         return type(a) is type(b) and len(a) == len(b) and all(same(ctx, x, y) for x, y in zip(a, b))
     if isinstance(a, dict) or isinstance(b, dict):
